@@ -362,6 +362,36 @@ def post(sim, h):
                     V.append(Violation("equality-raised", f"building / comparing (left {sym} right) raised {type(e).__name__}: {str(e)[:100]}", exc=type(e).__name__, **where))
         for p in walk_params(A, []):
             p._cache.clear()
+        # last (it edits the user's operand): an operand is retuned through its keyword arguments after the
+        # expression was written; the expression means the arithmetic of its operands as they are now
+        if td and not V and isinstance(A, CompositeParameter):
+            tree2 = copy.deepcopy(tree)
+            pairs_ = []
+            A2 = B.build_tree(tree2, get_ctx(sim).tctx, registry=pairs_)  # the user writes the expression ...
+            target = next((o_ for n_, o_ in pairs_ if n_["leaf"] in ("ramp", "sin", "wave") and isinstance(o_, tdgl.Parameter) and getattr(o_, "time_dependent", False)), None)
+            if target is not None and isinstance(A2, CompositeParameter):
+                key = {"ramp": "final", "sin": "offset", "wave": "w"}[next(n_["leaf"] for n_, o_ in pairs_ if o_ is target)]
+                if key in target.kwargs:
+                    new_val = float(target.kwargs[key]) * 1.5 + 0.25
+                    target.kwargs[key] = new_val  # ... and retunes the operand object it holds afterwards
+                    for n_, o_ in pairs_:
+                        if o_ is target:
+                            n_[key] = new_val
+                    n = 30
+                    xi = scn["device"]["layer"]["xi"]
+                    xs_, ys_ = rs.uniform(-2, 2, n) * xi, rs.uniform(-2, 2, n) * xi
+                    for tt in (0.3 * scn["options"]["solve_time"], 0.8 * scn["options"]["solve_time"]):
+                        try:
+                            got = np.asarray(A2(xs_.copy(), ys_.copy(), np.zeros(n), t=tt), dtype=float)
+                        except Exception as e:
+                            V.append(Violation("evaluation-raised", f"evaluating the composite after an operand was retuned raised {type(e).__name__}: {str(e)[:80]}", **where))
+                            break
+                        want = np.asarray(B.eval_tree(tree2, get_ctx(sim).tctx, xs_.copy(), ys_.copy(), np.zeros(n), tt), dtype=float)
+                        want = np.broadcast_to(want, got.shape) if want.shape != got.shape and (want.ndim < got.ndim or want.size == 1) else want
+                        sc = float(np.max(np.abs(want), initial=0.0)) + 1e-300
+                        if got.shape != want.shape or max_err(got, want) / sc > 1e-12:
+                            V.append(Violation("operand-retuned", f"after the keyword argument '{key}' of a time-dependent operand was changed, the expression written earlier (t={tt:.4g}) differs from the arithmetic of its operands by {max_err(got, want) / sc if got.shape == want.shape else float('nan'):.3g} relative", **where))
+                            break
     return V
 
 
